@@ -178,6 +178,9 @@ def fieldNorm (f : Fld C) (ord : String) : Res :=
   | "inf" => absLike DT.float (normInf ratMax CRat.nsq f).re
   | _ => .err "bad-op"
 
+/-- result type of ducc0.misc.vdot: a Python float when the imaginary part vanishes, else complex -/
+def duccDt (v : C) : DT := if v.im == 0 then DT.float else DT.complex
+
 def indicator (f : Fld C) : Fld C := { f with val := fun i => b2c (isTrue (f.val i)) }
 
 def sqrtFld (r : Except String (Fld C)) : Res :=
@@ -214,10 +217,13 @@ def runFieldOp (flds : Array (Fld C)) (j : Json) : Option Res := do
   | "std" => do some (sqrtFld (var CRat.nsq f (← parseSpacesJ j "spaces")))
   | "vdot" => do
     let g ← flds[(← fNat? j "g")]?
-    some (ofExF (vdot CRat.conj f g (← parseSpacesJ j "spaces")))
+    -- ducc0.misc.vdot returns a Python float whenever the imaginary part of the result is zero (value dependent)
+    some (ofExF ((vdot CRat.conj f g (← parseSpacesJ j "spaces")).map fun r =>
+      if r.subs.isEmpty && f.subs.length == (match parseSpaces ((parseSpacesJ j "spaces").getD .none) f.subs.length with | .ok l => l.length | _ => 0)
+      then { r with dt := duccDt (r.val []) } else r))
   | "s_vdot" => do
     let g ← flds[(← fNat? j "g")]?
-    some (match sVdot CRat.conj f g with | .error e => .err e | .ok v => .sc (max (max f.dt g.dt) DT.float) v false)
+    some (match sVdot CRat.conj f g with | .error e => .err e | .ok v => .sc (duccDt v) v false)
   | "s_sum" => some (.sc (max f.dt DT.int) (sSum f) false)
   | "s_prod" => some (.sc (max f.dt DT.int) (sProd f) false)
   | "s_all" => some (.sc DT.bool (b2c (isTrue (sProd (indicator f)))) false)
@@ -247,7 +253,7 @@ def resOfMF (r : Except String (MFld C)) : Res :=
 
 def mapLeavesRes (m : MFld C) (g : Fld C → Res) : Res :=
   -- the first failing leaf aborts the whole operation, as the generator expression in `_transform` does
-  let rs := m.leaves.map fun kv => (kv.1, g kv.2)
+  let rs := m.leaves.map fun kv => (kv.1, match g kv.2 with | .same => .fld kv.2 false | r => r)
   match rs.find? (fun kv => match kv.2 with | .err _ => true | _ => false) with
   | some (_, e) => e
   | none => .mf rs
@@ -272,8 +278,10 @@ def runMFieldOp (mfs : Array (MFld C)) (j : Json) : Option Res := do
     some (mapLeavesRes a (fieldUn name))
   | "ms_vdot" => do
     let b ← mfs[(← fNat? j "b")]?
-    some (match msVdot CRat.conj a b with | .error e => .err e | .ok v => .sc DT.float v false)
-  | "ms_sum" => some (.sc DT.float (msSum a) false)
+    let dt := (List.zip a.leaves b.leaves).foldl
+      (fun d kv => max d (match sVdot CRat.conj kv.1.2 kv.2.2 with | .ok v => duccDt v | _ => DT.float)) DT.float
+    some (match msVdot CRat.conj a b with | .error e => .err e | .ok v => .sc dt v false)
+  | "ms_sum" => some (.sc (a.leaves.foldl (fun d kv => max d kv.2.dt) DT.int) (msSum a) false)
   | "mnorm" => do
     match (← fStr? j "ord") with
     | "1" => if a.leaves.all (fun kv => allAbsExact kv.2) then some (.sc DT.float (mnorm1 abC a) false) else some .irr
